@@ -29,6 +29,10 @@
                              records followed by exactly the records written since; restart twice = restart once  (full)
     restart_put_legacy_phantom   code before 3252737: phantom record out of the remnant of a torn record      (refutation, legacy)
 
+    rewind_then_puts         emptyFile on an idle queue empties the file: a scan after the rewind and any further writes
+                             delivers exactly the records written since                                          (full)
+    rewind_without_truncate_refuted   variant seed-C08c (rewind, file kept): stale record redelivered after the newer (refutation, variant)
+
   Store level:
     redeliver_idempotent, redeliver_prefix, redeliver_twice                                                  (full)
 
@@ -630,6 +634,53 @@ theorem torn_restart_put_restart (good : List Stamped) (s : Stamped) (c z : Nat)
   rw [hl] at this
   rw [this, hsc]
   exact ⟨rfl, rfl⟩
+
+/-! ### the rewind: `emptyFile` on an idle queue -/
+
+theorem encodeAll_append (a b : List Stamped) : encodeAll (a ++ b) = encodeAll a ++ encodeAll b := by
+  induction a with
+  | nil => rfl
+  | cons x a ih => simp [encodeAll, ih]
+
+/-- **rewind_then_puts**: whatever tmp.data held (`f`, any bytes, any write position), a Put/PutBatch that finds
+    the queue idle empties the file; after it and any number of further (non-idle) writes a scan delivers EXACTLY
+    the records written since the rewind — nothing of the old content can be seen again. -/
+theorem rewind_then_puts (f : Bytes) (off : Nat) (ss1 ss2 : List Stamped)
+    (h1 : ∀ s ∈ ss1, Sealed s) (h2 : ∀ s ∈ ss2, Sealed s) :
+    let p1 := putBytes emptyFileBytes true f off (encodeAll ss1)
+    let p2 := putBytes emptyFileBytes false p1.1 p1.2 (encodeAll ss2)
+    p2.2 = p2.1.length ∧
+    scan p2.1 = ⟨.eof, p2.1.length, (ss1 ++ ss2).map (·.r)⟩ := by
+  have e1 : putBytes emptyFileBytes true f off (encodeAll ss1) = (encodeAll ss1, (encodeAll ss1).length) := by
+    simp [putBytes, emptyFileBytes, writeAt, truncateTo, zeros]
+  have e2 : putBytes emptyFileBytes false (encodeAll ss1) (encodeAll ss1).length (encodeAll ss2)
+      = (encodeAll (ss1 ++ ss2), (encodeAll (ss1 ++ ss2)).length) := by
+    simp only [putBytes, emptyFileBytes, Bool.false_eq_true, if_false, writeAt_at_end, encodeAll_append,
+      List.length_append]
+  simp only [e1, e2]
+  refine ⟨trivial, ?_⟩
+  exact scan_encode (ss1 ++ ss2) (fun s hs => by
+    rcases List.mem_append.1 hs with h | h
+    · exact h1 s h
+    · exact h2 s h)
+
+/-- two records written and acknowledged: key 31 = 0A, key 32 = 0B -/
+def oldA : Record := ⟨4, [0x31], [0x0A]⟩
+def oldB : Record := ⟨4, [0x32], [0x0B]⟩
+/-- the newer version of key 32 -/
+def newB : Record := ⟨4, [0x32], [0xBB]⟩
+
+set_option maxRecDepth 100000 in
+/-- **rewind_without_truncate_refuted** (variant seed-C08c: `emptyFile` rewinds the write position on an idle queue
+    but keeps the file): tmp.data holds A, B(old); the queue is idle; B(new) is written at offset 0 over A; a restart
+    delivers [B(new), B(old)] — the stale record comes AFTER the newer version and wins: key 32 reads 0B again. -/
+theorem rewind_without_truncate_refuted :
+    (scan (putBytes emptyFileRewindOnly true (fileUtilsEncode 0 oldA ++ fileUtilsEncode 0 oldB) 512
+            (fileUtilsEncode 0 newB)).1).recs = [newB, oldB] ∧
+    (Store.empty.replay (scan (putBytes emptyFileRewindOnly true (fileUtilsEncode 0 oldA ++ fileUtilsEncode 0 oldB) 512
+            (fileUtilsEncode 0 newB)).1).recs) (4, [0x32]) = some [0x0B] ∧
+    (scan (putBytes emptyFileBytes true (fileUtilsEncode 0 oldA ++ fileUtilsEncode 0 oldB) 512
+            (fileUtilsEncode 0 newB)).1).recs = [newB] := by decide
 
 /-! ### code before fix 3252737: the torn tail is left in the file -/
 
